@@ -16,7 +16,12 @@ NA = {
 "C16":"Level-slice sufficiency compares two pure authorizations; the slice is computed in-process, not fetched through a seam.",
 "C17":"The manifest loader trait is crate-private with only the in-memory slicer; from outside slice_entities is a pure function.",
 "C18":"Symbolic compilation on literal environments is pure term construction; the solver I/O is explicitly outside the property."}
+PENDING = {k:"claimed in DESIGN.md section 4 but its world is not implemented yet in this commit (under construction)" for k in ["C01","C08","C19","C20"]}
 CHECKS = {
+"C15": dict(world="batched", cat="exploration", ref="DESIGN.md 4.4",
+  text="Seeded search over (validated policy set, conformant store with absent entities, request, delivery-fault plan of a simulated entity-store service behind the EntityLoader seam) with every iteration budget 0..=n+1 enumerated per scenario; each batched call is compared with ordinary authorization over the same store; monotonicity in the budget and bounded liveness (budget n+1 decides) are checked over the recorded per-budget history.",
+  note="Trusted: the real strict validator / schema-based entity and request validation as precondition filters, Authorizer::is_authorized as reference, the harness's counting of distinct entity ids. Assumes re-delivery of already delivered entities is within the loader contract.",
+  tech="deterministic simulation: simulated loader service with seeded delivery faults, budgets enumerated, differential oracle + history checks (monotone, bounded liveness)"),
 "C04": dict(world="hierarchy", cat="exploration", ref="DESIGN.md 4.2",
   text="Seeded search over store histories (from_entities/add/upsert/remove/protobuf decode/enforce) on a pool of <=10 ids, each history executed under 1-4 owned hash orders, compared step by step with a parent-reachability model (ancestors(), is_ancestor_of, `principal in` through the authorizer, cycle rejection, enforce verdicts). Sampling, not proof: a clean batch is evidence that no history of this shape breaks the property.",
   note="Trusted: the harness's reachability model (~40 lines), the getrandom interposition that owns std RandomState keys, serde/serde_json. Assumes re-adding an existing uid may be an error or a no-op, and that remove of an absent id is a no-op (documented).",
@@ -31,7 +36,7 @@ def main():
      "engines":[{"name":"cedar-sim","path":"/verif/sim","serves_properties":sorted(CHECKS),"kind_free_text":"deterministic simulator: seeded op-list generator, fresh-thread runs with owned hash seeds, reference models, ddmin minimiser, replay files, worker processes"}],
      "checks":checks,
      "notes":"see DESIGN.md; fix: commits in /repo are listed in known-findings.json",
-     "not_applicable":[{"property_id":k,"reason":v} for k,v in sorted(NA.items()) if k not in CHECKS]}
+     "not_applicable":[{"property_id":k,"reason":v} for k,v in sorted({**NA, **PENDING}.items()) if k not in CHECKS]}
     # properties neither claimed nor listed: say why (not built yet)
     json.dump(m,open('/verif/MANIFEST.json','w'),indent=1)
 main()
